@@ -31,35 +31,17 @@ def rule_r1(chk, db):
         allnames |= names
         chk.verdict(len(names) >= 1, "R1", "verdict#%d" % w["bi"], b.loc(w["bi"]), "Some(..) in v4_check is not the result of a verifier")
     chk.verdict(len(allnames) == 3, "R1", "verdicts", b.loc(), "verifier results returned by v4_check: %s" % sorted(allnames), nontrivial=False)
+    sig_edges = sigcore.presence_edges(db, b, ("qs", "X-Amz-Signature"))
+    auth_edges = sigcore.presence_edges(db, b, ("auth-header",))
     for w in nones:
-        f = guards.dominating_facts(b, w["bi"])
-        sig_absent = [x for x in f if x[0] == "call" and x[1].endswith("OrderedQs::has") and x[2] is False] or \
-            [x for x in f if x[0] == "enum" and "OrderedQs" in x[1] and x[2] == frozenset(["None"])]
-        auth_absent = [x for x in f if x[0] == "call" and x[1].endswith("Option::<T>::is_some") and x[2] is False] or \
-            [x for x in f if x[0] == "enum" and x[1].startswith("core::option::Option<&str>") and x[2] == frozenset(["None"])]
-        # the facts above are disjunctive across paths (qs None | has false); test by reachability instead:
-        ok = True
         what = []
-        # (1) the None return must not be reachable from the true edge of has("X-Amz-Signature")
-        for bi, t in b.calls():
-            d = callee_def(t)
-            if d.endswith("OrderedQs::has") and paths.str_args(b, t) == ["X-Amz-Signature"]:
-                tr = flow.outcomes_of_call(b, bi).get("true")
-                if tr and w["bi"] in flow.reach_from_edges(b, tr):
-                    ok = False
-                    what.append("presigned parameters present")
-            if d.endswith("Option::<T>::is_some"):
-                sl = flow.backward(b, t["args"][0])
-                if any(callee_def(x).endswith("::get_unique") for _, x, _ in sl.calls):
-                    tr = flow.outcomes_of_call(b, bi).get("true")
-                    if tr and w["bi"] in flow.reach_from_edges(b, tr):
-                        ok = False
-                        what.append("authorization header present")
-        chk.verdict(ok, "R1", "anonymous", b.loc(w["bi"]), "v4_check classifies a request as unsigned although %s" % what)
-    # the three tests exist (else vacuous)
-    has_sig = [1 for _, t in b.calls() if callee_def(t).endswith("OrderedQs::has") and paths.str_args(b, t) == ["X-Amz-Signature"]]
-    gu = [1 for _, t in b.calls() if callee_def(t).endswith("::get_unique")]
-    chk.floor("R1.tests", len(has_sig) + len(gu), 2, "presence tests in v4_check")
+        if sig_edges and w["bi"] in flow.reach_from_edges(b, sig_edges):
+            what.append("presigned parameters present")
+        if auth_edges and w["bi"] in flow.reach_from_edges(b, auth_edges):
+            what.append("authorization header present")
+        chk.verdict(not what, "R1", "anonymous", b.loc(w["bi"]), "v4_check classifies a request as unsigned although %s" % what)
+    # the tests exist (else vacuous)
+    chk.floor("R1.tests", (1 if sig_edges else 0) + (1 if auth_edges else 0), 2, "presence tests in v4_check (X-Amz-Signature, Authorization)")
 
 
 def rule_r2(chk, db, v):
